@@ -792,7 +792,18 @@ impl EliasFanoBuilder {
     /// [`build_with_dict`](EliasFanoConcurrentBuilder::build_with_dict), and
     /// [`build_with_seq_and_dict`](EliasFanoConcurrentBuilder::build_with_seq_and_dict)
     /// methods are more convenient.
+    ///
+    /// # Panics
+    ///
+    /// This method will panic if fewer than `n` values have been pushed.
     pub fn build(self) -> EliasFano {
+        // The selection structures rely on the high bits containing n ones
+        assert!(
+            self.count == self.n,
+            "Only {} values out of {} have been pushed",
+            self.count,
+            self.n
+        );
         let high_bits: BitVec<Box<[usize]>> = self.high_bits.into();
         EliasFano {
             n: self.n,
